@@ -723,13 +723,16 @@ class MixedStabilizer(StateRepresentationBase):
         :return: nothing
         :rtype: None
         """
+        # partial_trace shrinks each tableau in place: read the size once, before the first branch is reduced
+        n_qubits = self.n_qubits
+        keep = [q for q in range(n_qubits) if q not in qubit_positions]
         self._mixture = [
             (
                 p_i,
                 sfc.partial_trace(
                     t_i,
-                    keep=[q for q in range(self.n_qubits) if q not in qubit_positions],
-                    dims=self.n_qubits * [2],
+                    keep=keep,
+                    dims=n_qubits * [2],
                     measurement_determinism=measurement_determinism,
                 ),
             )
